@@ -59,6 +59,8 @@ Definition hexd (n : N) : N := if n <? 10 then 48 + n else 87 + n.
 Definition hex4 (n : N) : str :=
   [hexd (n / 4096); hexd ((n / 256) mod 16); hexd ((n / 16) mod 16); hexd (n mod 16)].
 
+Definition is_surrogate (c : N) : bool := (55296 <=? c) && (c <=? 57343).
+
 Section Escape.
   (** CPython's [str.isprintable] per code point: a Unicode-database table, kept
       abstract.  The theorems hold for every such predicate. *)
@@ -74,7 +76,7 @@ Section Escape.
     else if c =? 9 then [c_bs; 116]         (* \t *)
     else if c =? 8 then [c_bs; 98]          (* \b *)
     else if c =? 12 then [c_bs; 102]        (* \f *)
-    else if printable c then [c]
+    else if printable c || is_surrogate c then [c]   (* a lone surrogate can only be written raw *)
     else if 65535 <? c then
       let d := c - 65536 in
       c_bs :: 117 :: hex4 (55296 + d / 1024) ++ c_bs :: 117 :: hex4 (56320 + d mod 1024)
@@ -380,7 +382,8 @@ Inductive prim :=
 | PFloat (f : frepr)
 | PStr (s : str)
 | PPath (p : path)
-| PRange (a b : prim).
+| PRange (a b : prim)
+| PContinue.                 (* the keyword [continue] after [offset:] (Continue) *)
 
 (** Trees built by [parse_boolean_primitive]. *)
 Inductive bexpr :=
@@ -428,6 +431,16 @@ Definition prec (o : binop) : nat :=
   | OContains | OIn => 6
   end%nat.
 
+(** CPython's [str.isspace] on the Basic Multilingual Plane (what [\s] matches
+    in the lexer's rules); a name that starts with such a character would be
+    swallowed after the opening of an output statement. *)
+Definition is_uspace (c : N) : bool :=
+  ((9 <=? c) && (c <=? 13)) || ((28 <=? c) && (c <=? 32)) || (c =? 133) || (c =? 160)
+  || (c =? 5760) || ((8192 <=? c) && (c <=? 8202)) || (c =? 8232) || (c =? 8233)
+  || (c =? 8239) || (c =? 8287) || (c =? 12288).
+Definition starts_uspace (s : str) : bool :=
+  match s with c :: _ => is_uspace c | [] => false end.
+
 (** The words that start the options of a loop expression. *)
 Definition is_loop_keyword (w : str) : bool :=
   str_eqb w (lit "limit") || str_eqb w (lit "reversed")
@@ -447,7 +460,8 @@ Section Print.
       let r' := print_path nested false r in
       if negb (is_property s) then quoted_seg s r'
       else if negb first then TPDot s r'
-      else if negb nested && (match r with PEnd => true | _ => false end) && is_reserved s
+      else if negb nested
+              && (((match r with PEnd => true | _ => false end) && is_reserved s) || starts_uspace s)
            then quoted_seg s r'
       else TPRoot s r'
     | PIndex z r => TPIdx z (print_path nested false r)
@@ -474,6 +488,7 @@ Section Print.
     | PStr s => let (q, raw) := string_repr printable s in AStr q raw
     | PPath pa => path_atok range_start pa
     | PRange _ _ => AOther (lit "(..)")            (* a range cannot bound a range *)
+    | PContinue => AWord (lit "continue")
     end.
 
   (** [str()] of a primitive: one token. *)
@@ -861,7 +876,7 @@ Fixpoint parse_loop_opts (ts : list tok) (l : loopexpr) : res loopexpr :=
           | v :: r2 =>
             do p <- (if str_eqb w (lit "offset")
                         && (match v with TA (AWord c) => str_eqb c (lit "continue") | _ => false end)
-                     then Ok (PStr (lit "continue"))
+                     then Ok PContinue
                      else parse_primitive (Some v));;
             parse_loop_opts r2
               (if str_eqb w (lit "limit") then
